@@ -22,7 +22,7 @@ RULE = ('per configuration (backend x backoff x messages x recipients x pools x 
         'state); obligations at quiescence: no recipient outstanding, nothing removed while outstanding, every attempt '
         'carries exactly the outstanding recipients, every failed recipient of a message with a sender is named in an '
         'enqueued bounce.  Non-trivial = execution with a retry, a partial result or a bounce.')
-ASSUMPTIONS = ['real PipeRelay/MaildropRelay/StaticSmtpRelay/StaticLmtpRelay configurations use a scripted downstream (fake Popen, scripted peer over in-memory sockets)', 'ScriptedRelay outcomes are restricted to the documented Relay.attempt contract (complete mappings, values '
+ASSUMPTIONS = ['the virtual gevent loop is bound to the real one by replaying scenarios (default schedule, scripted outcomes) on the real loop with scaled real time and comparing the attempt sequences', 'real PipeRelay/MaildropRelay/StaticSmtpRelay/StaticLmtpRelay configurations use a scripted downstream (fake Popen, scripted peer over in-memory sockets)', 'ScriptedRelay outcomes are restricted to the documented Relay.attempt contract (complete mappings, values '
                'None / Reply / relay errors)', 'fake redis client and fake cloud object store (aws.py semantics); in-memory FS for disk',
                'gevent FIFO dispatch of ready callbacks is platform semantics']
 
@@ -56,6 +56,8 @@ def configs(tier, seed):
         if not q:
             cfgs.append(dict(backend=b, backoff='r10-20', n=3, messages=1, d=1, dd=3, menu={}))
             cfgs.append(dict(backend=b, backoff='r10', n=2, messages=2, d=2, dd=2, menu={}, relay_pool=2, store_pool=2))
+    nconf = 16 if tier == 'quick' else 32
+    cfgs += [{'mode': 'conformance', 'k': k, 'of': nconf, 'take': 1 if tier == 'quick' else 6} for k in range(nconf)]
     return cfgs
 
 
@@ -101,8 +103,28 @@ def signature(cfg, qw, kind):
             'partial_result': partial, 'second_round': rounds >= 2, 'mechanism': mech}
 
 
+def run_conformance(cfg, res):
+    """virtual loop vs REAL gevent loop (scaled real time) on the same scenario"""
+    from conformance.queue_real import scenarios, compare
+    sc = list(scenarios())
+    mine = sc[cfg['k']::cfg['of']][:cfg['take']]
+    for wcfg, data in mine:
+        err = compare(wcfg, data)
+        res.traces_validated += 1
+        res.evaluations += 2
+        res.count('real_loop_replays')
+        res.outcome(('conformance', tuple(data), err))
+        if err:
+            res.violation({'kind': 'virtual-loop-differs-from-real-loop'}, 'outcome choices %r: %s' % (data, err),
+                          {'cfg': {'conformance': True, 'wcfg': wcfg, 'data': data}, 'choices': []})
+    res.sample({'conformance': 'virtual loop vs real gevent loop', 'scenarios': [d for _, d in mine]})
+    return res.as_dict()
+
+
 def run_config(cfg, tier, seed):
     res = Result()
+    if cfg.get('mode') == 'conformance':
+        return run_conformance(cfg, res)
     wcfg = {k: v for k, v in cfg.items() if k not in ('d', 'dd')}
 
     def run(ch):
@@ -141,6 +163,10 @@ def vacuity(counters, tier):
 
 
 def replay(rep):
+    if rep['cfg'].get('conformance'):
+        from conformance.queue_real import compare
+        err = compare(rep['cfg']['wcfg'], rep['cfg']['data'])
+        return (True, err) if err else (False, 'virtual and real loop agree')
     ch = Chooser(rep['choices'])
     qw, obs, viols = run_one(rep['cfg'], ch)
     viols = [v for v in viols if v[0] not in ('settled-recipient-attempted-again', 'two-attempts-in-flight',
